@@ -21,7 +21,7 @@ Proof.
   cbn [P.ContractCallInput_Arguments P.ContractCallInput_CallType P.ContractCallInput_CallerAddr go_deref go_bind]. tie.
 Qed.
 Theorem tie_mustVerifyPayable_nil : forall m, P.mustVerifyPayable None m = None.
-Proof. intros m. reflexivity. Qed.
+Proof. intros m. unfold P.mustVerifyPayable. tie. Qed.
 
 (* ---- C09: the payability test of the transfer functions ---- *)
 Theorem P_mustVerifyPayable_true_iff : forall i minLen,
